@@ -4,7 +4,7 @@
    every theorem: "refuse the k-th request only" and "refuse every request from k on" are instances.
    clean_failure: the heap is cell-for-cell what it was, everything the call had allocated is
    released again, nothing else was touched. *)
-From CB Require Import Word PMem HHeap HItems HCont_proofs HRef_proofs.
+From CB Require Import Word PMem PStream PBuild HHeap HItems HOps HCont_proofs HRef_proofs HRead_proofs HCopy_proofs HLoad_proofs.
 (* cbor_new_definite_array: whichever request is refused (item, slots, or the size guard) -> NULL and a clean heap *)
 Theorem C06_new_definite_array_refusal :
   forall (refuse : N -> N -> bool) (n : N) (w w' : world),
@@ -82,3 +82,33 @@ Theorem C06_push_refused :
   exists w', array_push refuse a x w = Ret false w' /\ same_heap w w' /\ no_new_write w w'.
 Proof. exact push_refused_atomic. Qed.
 Print Assumptions C06_push_refused.
+
+(* cbor_copy under an arbitrary refusal schedule: NULL and the heap cell-for-cell as before *)
+Theorem C06_copy_clean_failure :
+  forall (refuse : N -> N -> bool) (fuel : nat) 
+           (a : addr) (w : world) (own ownd : addr -> N) 
+           (w' : world),
+         Inv own ownd [] w ->
+         shaped fuel (heap w) a ->
+         copy refuse fuel a w = Ret None w' ->
+         (forall b : addr, heap w' b = heap w b) /\ Inv own ownd [] w'.
+Proof. exact C06_copy_clean_failure. Qed.
+Print Assumptions C06_copy_clean_failure.
+
+(* cbor_load under an arbitrary refusal schedule (and on any malformed input): NULL, an error code, every pre-existing cell untouched, nothing left allocated *)
+Theorem C06_load_h_clean_failure :
+  forall (refuse : N -> N -> bool) (L : N) (own ownd : addr -> N)
+           (buf : list N) (w : world) (code : lerr) 
+           (pos rd : N) (w' : world),
+         bytes_ok buf ->
+         (len buf < SIZE_MAX)%N ->
+         HCont_proofs.wf w ->
+         Inv own ownd [] w ->
+         load_h refuse L buf w = Ret (None, code, pos, rd) w' ->
+         code <> ENone /\
+         (forall b : N, (b < next w)%N -> heap w' b = heap w b) /\
+         (forall b : N, (next w <= b)%N -> heap w' b = None) /\
+         Inv own ownd [] w' /\ (next w <= next w')%N.
+Proof. exact load_h_clean_failure. Qed.
+Print Assumptions C06_load_h_clean_failure.
+
